@@ -204,6 +204,15 @@ def base : Handler
         let want := if axis == "0" then colSums d else if axis == "1" then d.rowSums else [vsum d.rowSums]
         some (holds (closeVec tol want out) ("want=" ++ showRatList want))
       | _ => none
+  | "c15.type", ts => ans do
+      -- class and shape of the value of the expression in the model (`Op.ty`; equal to `OpExpr.type?` by `eval_type`)
+      let (e, _) ← parseExpr ts
+      let showKind : Kind → String := fun k => match k with
+        | .slr => "slr" | .nrm false => "nrm" | .nrm true => "nrmT" | .lap => "lap" | .con => "con"
+        | .pol => "pol" | .gen => "gen"
+      match e.eval with
+      | .error err => some (showErr err)
+      | .ok o => some s!"ok {showKind o.kind} {o.nRow} {o.nCol}"
   | "c15.spec_type", ts => ans do
       -- the class and shape Python returned, against the static type of the expression
       let (e, r) ← parseExpr ts
